@@ -130,6 +130,8 @@ def run_check(pid, tier, replay=None):
             violations.append(("the driver process died: %s" % first, rp))
         other = {}
         for r in recs:
+            if len(violations) >= 30:
+                break
             mine = [m for m in r["mismatches"] if m["prop"] == pid]
             for m in r["mismatches"]:
                 if m["prop"] != pid:
